@@ -346,3 +346,157 @@ def rule_alias(run: Run, prog: Program) -> int:
                     f"{show(outcomes[True])[:120]} - the diagram identifies nodes by identity, so the second mention finds the first one's indices used up. "
                     f"join(p, p) / meet(l, l) then fail with an internal error instead of the documented LinearDependenceError", loc)
     return n
+
+
+# ---------------------------------------------------------------------------------------------- E17: the generic action
+def rule_action(run: Run, prog: Program) -> int:
+    run.rule(
+        "E17",
+        "the action t * x, interpreted for every kind of object (absint: Tensor.__apply__ and the __apply__ overrides that build a diagram, the "
+        "TensorDiagram bookkeeping, the real Tensor.__init__; np.einsum recorded): every covariant index of x is contracted with the SECOND index of "
+        "a copy of the matrix, every contravariant index with the FIRST index of a copy of the inverse, collection axes of x and of a "
+        "transformation collection are broadcast from the right, and in the result every axis has the index type of the axis of x it replaces",
+    )
+    tcls, dcls = prog.find_cls("Tensor"), prog.find_cls("TensorDiagram")
+    trafo = prog.find_cls("Transformation")
+    trafo_coll = prog.find_cls("TransformationCollection")
+    ap = prog.lookup(tcls, "__apply__") if tcls is not None else None
+    inv_fn = prog.find_func("geometer.utils.math.inv") or prog.find_func("inv")
+    if None in (tcls, dcls, trafo, ap, inv_fn):
+        run.add("E17", "Tensor.__apply__", "action", UNDECIDED, "Tensor.__apply__ / Transformation / inv not all found", "")
+        return 0
+    n = 0
+    wrong: list[str] = []
+    unsupported: dict[str, int] = {}
+    n_ok = 0
+    samples: list[str] = []
+    # typed objects: (collection axes, covariant positions, contravariant positions) within an array of f + k axes
+    layouts = []
+    for f in (0, 1, 2):
+        for types in ["c", "d", "cc", "dd", "cd", "dc", "ddd"]:
+            cov = [f + i for i, t_ in enumerate(types) if t_ == "c"]
+            con = [f + i for i, t_ in enumerate(types) if t_ == "d"]
+            layouts.append((f, cov, con, types))
+    for tf in (0, 1):  # a single transformation / a collection of transformations
+        for f, cov, con, types in layouts:
+            n += 1
+            rank = f + len(types)
+            x = absint.Obj(__cls__=tcls, array=absint.Arr(rank, "f", tuple(("x", i) for i in range(rank))), _covariant_indices=set(cov), _contravariant_indices=set(con))
+            m_arr = absint.Arr(tf + 2, "f", tuple(("M", i) for i in range(tf + 2)))
+            t = absint.Obj(__cls__=trafo_coll if tf and trafo_coll is not None else trafo, array=m_arr, _covariant_indices={tf}, _contravariant_indices={tf + 1})
+            inv_arrays: list = []
+            captured: dict = {}
+
+            def inv_override(args, kwargs):
+                a = absint.as_array(args[0])
+                out = absint.Arr(a.ndim, "f", tuple(("Minv", i) for i in range(a.ndim)))
+                inv_arrays.append(out)
+                return out
+
+            def einsum(*args, **kw):
+                captured["args"] = args
+                out = args[-1]
+                # provenance of the result: a label that belongs to an axis of x keeps it; the free label of a matrix copy stands for the axis of x it is contracted with
+                ops = [(args[i], list(args[i + 1])) for i in range(0, len(args) - 1, 2)]
+                owner: dict = {}
+                xop = next(((a, l) for a, l in ops if isinstance(a, absint.Arr) and a.prov and a.prov[0][0] == "x"), None)
+                if xop is None:
+                    raise absint.Unsupported("x is not an operand of the einsum")
+                xl = xop[1]
+                for ax, lab in enumerate(xl):
+                    owner[lab] = ("x", ax)
+                for a, l in ops:
+                    if isinstance(a, absint.Arr) and a.prov and a.prov[0][0] in ("M", "Minv"):
+                        tensor_axes = l[-2:]
+                        hit = [lab for lab in tensor_axes if lab in xl]
+                        free = [lab for lab in tensor_axes if lab not in xl]
+                        if len(hit) == 1 and len(free) == 1:
+                            owner.setdefault(free[0], ("x", xl.index(hit[0])))
+                        for ax, lab in enumerate(l[:-2]):  # collection axes of a transformation collection
+                            owner.setdefault(lab, "new")
+                return absint.Arr(len(out), "f", tuple(owner.get(lab, "new") for lab in out))
+
+            it = absint.Interp(prog, np_extra={"einsum": einsum}, max_steps=60000, max_depth=14)
+            it.function_overrides[inv_fn.qualname] = inv_override
+            what = f"x with {f} collection axes and index types {types!r} under a {'collection of transformations' if tf else 'transformation'}"
+            try:
+                res = it.call(ap, [x, t])
+            except absint.Unsupported as e:
+                unsupported[str(e)] = unsupported.get(str(e), 0) + 1
+                continue
+            except absint.Raised as e:
+                wrong.append(f"{what}: raises {e.name}")
+                continue
+            n_ok += 1
+            problems = []
+            args = captured.get("args")
+            if args is None:
+                problems.append("no einsum is issued")
+            else:
+                ops = [(args[i], list(args[i + 1])) for i in range(0, len(args) - 1, 2)]
+                xl = next(l for a, l in ops if isinstance(a, absint.Arr) and a.prov and a.prov[0][0] == "x")
+                used_m = {ax: 0 for ax in cov}
+                used_i = {ax: 0 for ax in con}
+                for a, l in ops:
+                    if not (isinstance(a, absint.Arr) and a.prov):
+                        continue
+                    kind = a.prov[0][0]
+                    if kind == "M":
+                        # matrix: its SECOND tensor index must be the one shared with a covariant axis of x
+                        if l[-1] in xl and xl.index(l[-1]) in used_m and l[-2] not in xl:
+                            used_m[xl.index(l[-1])] += 1
+                        else:
+                            problems.append("a copy of the matrix is not contracted on its second index with a covariant index of x")
+                    elif kind == "Minv":
+                        if l[-2] in xl and xl.index(l[-2]) in used_i and l[-1] not in xl:
+                            used_i[xl.index(l[-2])] += 1
+                        else:
+                            problems.append("a copy of the inverse is not contracted on its first index with a contravariant index of x")
+                if any(v != 1 for v in used_m.values()):
+                    problems.append(f"covariant indices of x acted on {sorted(used_m.values())} times each, expected once")
+                if any(v != 1 for v in used_i.values()):
+                    problems.append(f"contravariant indices of x acted on {sorted(used_i.values())} times each, expected once")
+            if isinstance(res, absint.Obj) and isinstance(res.__dict__.get("array"), absint.Arr) and res.__dict__["array"].prov is not None:
+                arr = res.__dict__["array"]
+                rc, rn = res.__dict__.get("_covariant_indices", set()), res.__dict__.get("_contravariant_indices", set())
+                for i, lab in enumerate(arr.prov):
+                    got = "covariant" if i in rc else ("contravariant" if i in rn else "collection")
+                    want = "collection" if lab == "new" else ("covariant" if lab[1] in cov else ("contravariant" if lab[1] in con else "collection"))
+                    if got != want:
+                        problems.append(f"axis {i} of the result stands for {'a new axis' if lab == 'new' else 'axis ' + str(lab[1]) + ' of x'} ({want}) but is typed {got}")
+                        break
+            else:
+                problems.append("the result is not a tensor with a tracked array")
+            if problems:
+                wrong.append(f"{what}: " + "; ".join(dict.fromkeys(problems)))
+            elif len(samples) < 4 and n_ok % 11 == 1:
+                samples.append(f"{what}: einsum {_canonical(captured['args'])}")
+    if not hasattr(run, "enumerated"):
+        run.enumerated, run.case_samples = {}, {}
+    run.enumerated["E17"] = n_ok
+    run.case_samples["E17"] = samples
+    loc = ap.loc
+    if unsupported:
+        worst = sorted(unsupported.items(), key=lambda kv: -kv[1])[:2]
+        run.add("E17", ap.short, "vocabulary", UNDECIDED, f"{sum(unsupported.values())} of {n} cases could not be interpreted ({'; '.join(f'{k} x{v}' for k, v in worst)})", loc)
+    from geolint.report import INFO
+
+    outside = [w for w in wrong if "'dc'" in w or ("with 0 collection axes" in w and "collection of transformations" in w)]
+    std = [w for w in wrong if w not in outside]
+    odd = []
+    if outside:
+        run.add("E17", ap.short, "combinations outside the statement", INFO,
+                f"{len(outside)} case(s) that C06/C07 do not speak about give a result whose index types do not follow its axes: a COLLECTION of "
+                f"transformations applied to a SINGLE object (the new collection axis is typed like the object's first index: `ts * p` is a malformed Point), "
+                f"and plain tensors that store a contravariant index before a covariant one (calculate() returns the indices covariant-first, the result "
+                f"keeps the index sets of x). Recorded as information; e.g. " + outside[0][:200], loc, {"cases": outside[:12]})
+    if std:
+        run.add("E17", ap.short, "action on the geometric kinds", VIOLATION, f"{len(std)} of {n} cases: " + "; ".join(std[:3]), loc, {"failing": std[:20]})
+    elif not unsupported:
+        run.add("E17", ap.short, "action on the geometric kinds", PROVEN,
+                f"{n_ok - len(odd)} cases (points, hyperplanes, quadrics and dual quadrics, (1,1)-tensors, lines of 3-space; 0-2 collection axes; single transformations and "
+                f"collections): matrix on its second index for every covariant index, inverse on its first for every contravariant one, types follow the axes", loc)
+    if odd:
+        run.add("E17", ap.short, "tensors that store a contravariant index before a covariant one", VIOLATION,
+                f"{len(odd)} case(s): " + "; ".join(odd[:2]) + " - calculate() returns the indices covariant-first while the result keeps the index sets of x", loc, {"failing": odd[:10]})
+    return n
